@@ -50,6 +50,7 @@ pub fn out(line: &str) {
 
 thread_local! {
     static LAST_PANIC: RefCell<Option<(String, String)>> = const { RefCell::new(None) };
+    static IN_GUARD: std::cell::Cell<u32> = const { std::cell::Cell::new(0) };
 }
 
 /// Install a panic hook that records `(location, message)` per thread and
@@ -67,6 +68,11 @@ pub fn install_panic_hook() {
         } else {
             "<non-string panic>".into()
         };
+        if IN_GUARD.with(|g| g.get()) == 0 {
+            // a panic of the harness itself: make it visible
+            eprintln!("HARNESS PANIC at {loc}: {msg}");
+            out(&format!("MACHINERY-ERROR: harness panic at {loc}: {msg}"));
+        }
         LAST_PANIC.with(|p| *p.borrow_mut() = Some((loc, msg)));
     }));
 }
@@ -82,7 +88,10 @@ pub enum Guard<T> {
 /// Call `f`, turning a panic into a value carrying its source location.
 pub fn guard<T>(f: impl FnOnce() -> T) -> Guard<T> {
     LAST_PANIC.with(|p| *p.borrow_mut() = None);
-    match panic::catch_unwind(AssertUnwindSafe(f)) {
+    IN_GUARD.with(|g| g.set(g.get() + 1));
+    let r = panic::catch_unwind(AssertUnwindSafe(f));
+    IN_GUARD.with(|g| g.set(g.get() - 1));
+    match r {
         Ok(v) => Guard::Done(v),
         Err(_) => {
             let (loc, msg) = LAST_PANIC
